@@ -96,6 +96,12 @@ CLAIMED["C18"] = (
     "Trusted: pyre translation (validated against Python re per run), z3 string solver, numpy; RDKit's C++ is a black box (only the bridge's bookkeeping is exercised). Outside: molecules with more than 3 atoms except the count-limit cases, non-ASCII header/metadata text, keys with several components symbolically (covered by one concrete multi-part key).",
     "DESIGN.md §4 C18")
 
+CLAIMED["C19"] = (
+    "solver-driven case split over tree shapes, leaf labelings and distance matrices on the compiled phylo extensions against explicit path sums and an average-linkage recomputation",
+    "Bounded model checking (class E: z3 variables select shapes, labelings and matrix entries; everything within the bound is executed). 8 tree shapes incl. single-child chains x up to 24 labelings: Newick round trips (labels, no distances, whitespace), copy, binary conversion, every leaf-to-leaf distance and LCA vs path sums. UPGMA on every menu matrix with n <= 4 (5): each index one leaf, ultrametric, merge heights = half average linkage. Neighbour joining on additive matrices incl. duplicated taxa and the zero matrix: all path lengths reproduced.",
+    "Trusted: the nested-tuple tree model and oracles in obligations/sx_c19.py, numpy, z3 as enumeration driver. tree.pyx / upgma.pyx / nj.pyx are checked as compiled black boxes (a .pyx edit is only seen after the extension is rebuilt). Outside: float rounding beyond 1e-4, n > 5, Newick strings not produced by the writer.",
+    "DESIGN.md §4 C19")
+
 NOT_APPLICABLE = {
     "C15": "float results of numpy/LAPACK (linalg solves, trigonometry, argmin over float images): no integer/string logic in front of the C boundary that a solver could reason about; an abstraction over the reals would verify a model of numpy, not the code (DESIGN §6)",
     "C16": "optimality/properness come from np.linalg.svd/det (LAPACK behind FFI) on float32 data; no encodable source; z3 terms cannot pass astype(float32) (DESIGN §6)",
